@@ -201,7 +201,7 @@ class ResultsJSONDecoder(json.JSONDecoder):
             return results_class.from_dict(obj)
 
         if cls == 'PosixPath':
-            return Path(obj)
+            return Path(obj['path'])
         if cls == 'Log':
             from pharmpy.workflows import Log
 
